@@ -14,6 +14,7 @@ Two drivers:
   evaluate anything (observed through side-effect probes, a wrapper around the eval entry points and the interpreter's audit events).
 """
 import ast
+import itertools
 import logging
 import math
 import os
@@ -628,7 +629,7 @@ def bounded_text_roundtrip(reg, tier, seed):
             if sum(1 for f in failures if f["key"] == key) < 2:
                 failures.append({"key": key, "clause": clause, "input": inp, "observed": observed})
 
-        def run_case(m, label, nonfinite=None):
+        def run_case(m, label, nonfinite=None, pinned=False):
             nonlocal evals
             try:
                 data = rt.ser.serialize(m)
@@ -637,19 +638,22 @@ def bounded_text_roundtrip(reg, tier, seed):
             except Exception:  # noqa
                 stats["unencodable"] += 1
                 return
-            if not canonicalize_subfields(m2):
-                stats["discarded_noncanonical"] += 1
-                return
-            try:
-                data = rt.ser.serialize(m2)
-                m2 = rt.de.deserialize(data)
-                _ = m2.blocks
-            except Exception:  # noqa
-                stats["unencodable"] += 1
-                return
-            if canonicalize_subfields(m2) is not True:      # as decoded from the wire it must already be canonical, otherwise not this driver's subject
-                stats["discarded_noncanonical"] += 1
-                return
+            if not pinned:
+                # (pinned cases carry sub-format payloads written out as byte constants that are canonical in their wire format: they
+                # are used as they are - asking the codec under test whether they are canonical would let a codec change hide them)
+                if not canonicalize_subfields(m2):
+                    stats["discarded_noncanonical"] += 1
+                    return
+                try:
+                    data = rt.ser.serialize(m2)
+                    m2 = rt.de.deserialize(data)
+                    _ = m2.blocks
+                except Exception:  # noqa
+                    stats["unencodable"] += 1
+                    return
+                if canonicalize_subfields(m2) is not True:      # as decoded from the wire it must already be canonical, otherwise not this driver's subject
+                    stats["discarded_noncanonical"] += 1
+                    return
             m2.direction = m.direction
             tables = replacement_tables(m2, rng)
             combos = [(False, tables[0]), (False, tables[2]), (True, tables[0]), (True, tables[1]), (True, tables[2]), (True, tables[3]), (True, tables[4])]
@@ -676,6 +680,18 @@ def bounded_text_roundtrip(reg, tier, seed):
                         clause = "a float field holding inf/nan on the wire must survive the text round trip"
                     fail(key, clause, dict(inp, text=str(txt)[:1500]), observed)
 
+        # pinned sub-format payloads (byte constants): terse object updates for a prim and an avatar whose quantised rotation has every
+        # sign pattern, W in the lower half of its range included
+        from hippolyzer.lib.base.message.message import Message as _Msg, Block as _Blk
+        from hippolyzer.lib.base.network.transport import Direction as _Dir
+        for avatar, rot in itertools.product((False, True), ((32768, 40000, 32768, 5000), (40000, 20000, 50000, 60000), (1, 65535, 32768, 32767),
+                                                               (20000, 20000, 20000, 20000), (0, 0, 0, 0), (65535, 65535, 65535, 65535))):
+            pl = struct.pack("<IBB", 77, 0, 1 if avatar else 0) + (struct.pack("<4f", 0.0, 0.0, 1.0, 0.5) if avatar else b"")
+            pl += struct.pack("<3f", 1.0, 2.0, 3.0) + struct.pack("<3H", 32768, 40000, 100) + struct.pack("<3H", 32768, 32768, 65535)
+            pl += struct.pack("<4H", *rot) + struct.pack("<3H", 32768, 0, 32768)
+            m = _Msg("ImprovedTerseObjectUpdate", _Blk("RegionData", RegionHandle=5, TimeDilation=65535),
+                     _Blk("ObjectData", Data=pl, TextureEntry=b""), packet_id=9, direction=_Dir.IN)
+            run_case(m, f"pinned-terse-{'avatar' if avatar else 'prim'}-{rot}", pinned=True)
         for t in tmpls:
             has_var = any(b.block_type == MsgBlockType.MBT_VARIABLE for b in t.blocks)
             variants = [("rand", False), ("one", True)] + ([("min", False)] if has_var else [])
